@@ -33,7 +33,8 @@ func childMain(path string) int {
 	if reps < 1 {
 		reps = 1
 	}
-	for i := 0; i < reps; i++ {
+	deadline := time.Now().Add(3 * time.Second) // the watchdog of the parent allows 20 s per case
+	for i := 0; i < reps && time.Now().Before(deadline); i++ {
 		runConcurrent(base, c, true)
 	}
 	return 0
